@@ -16,7 +16,14 @@ RULE = (
     "exception other than PestParsingError is a violation). (b) operation-level: Hypothesis draws a stack of "
     "0-4 entries over '', a, b, ab, a text, a position and one operation wrapped in a silent rule r = _{ OP }; "
     "(returned bool, position, stack) of the interpreter rule object and of the generated parse_r are "
-    "compared with the specification. Non-trivial: (a) the reference undid a stack change on backtracking / "
+    "compared with the specification. (c) history grammars: r0 = { H ~ PEEK_ALL|POP_ALL|PEEK[..] ~ EOI } where H "
+    "is a random nest of PUSH_LITERAL / PUSH / DROP / POP / PEEK under optionals, alternatives, predicates and "
+    "repetitions that are committed or rolled back ('!' never matches), with the input chosen so that the "
+    "reference succeeds and the final observation sees the whole stack. (d) exhaustive: EVERY nested history of "
+    "push(fresh letter) / pop / checkpoint..commit / checkpoint..rollback with at most 9 (quick) / 11 "
+    "(thorough) operations, compiled to a grammar (commit = ( .. )? or ( .. | \"!\"), rollback = ( .. ~ \"!\")?, "
+    "(( .. ~ \"!\") | \"\"), &( .. ), !( .. ~ \"!\")) followed by PEEK_ALL / POP_ALL / PEEK[..] ~ EOI, four modes. "
+    "Non-trivial: (a) the reference undid a stack change on backtracking / "
     "after a predicate or an operation hit the empty stack; (b) the stack is non-empty or the operation "
     "fails; distinct by hash of the case."
 )
@@ -25,7 +32,7 @@ ASSUMPTIONS = [
     "discarded",
     "PEEK_ALL / POP_ALL match the entries with no implicit trivia between them (C04: trivia 'nowhere else')",
 ]
-SIZES = {"quick": {"grammars": 150, "ops": 400}, "thorough": {"grammars": 4000, "ops": 6000}}
+SIZES = {"quick": {"grammars": 250, "ops": 400, "hist": 600, "exh": 9}, "thorough": {"grammars": 4000, "ops": 6000, "hist": 20000, "exh": 11}}
 MODES = refdiff.ALL_MODES
 
 
@@ -170,6 +177,149 @@ def run_ops(ctx: Ctx, modes, n):
     t()
 
 
+# ----------------------------------------------------------------------------- history grammars
+
+
+def history_expr(rng, depth=0):
+    """A random expression that drives the stack through pushes, pops and nested checkpoints which are
+    committed or rolled back ('!' never occurs in the input, '.' is the only input character)."""
+    n = rng.randint(1, 4)
+    items = []
+    for _ in range(n):
+        x = rng.random()
+        if x < 0.30:
+            items.append(("pushlit", rng.choice(["a", "b", "c", "d", ".", "ab"])))
+        elif x < 0.50:
+            items.append(("id", rng.choice(["DROP", "DROP", "POP", "PEEK"])))
+        elif x < 0.58:
+            items.append(("push", ("str", ".")))
+        elif x < 0.63:
+            items.append(("str", "."))
+        elif depth < 3:
+            body = history_expr(rng, depth + 1)
+            body_fail = ("seq", (body, ("str", "!"))) if body[0] != "seq" else ("seq", body[1] + (("str", "!"),))
+            k = rng.choice(["opt", "opt-fail", "alt-fail", "alt-fail", "and", "not-fail", "not", "star", "max", "minmax"])
+            if k == "opt":
+                items.append(("opt", body))
+            elif k == "opt-fail":
+                items.append(("opt", body_fail))
+            elif k == "alt-fail":
+                items.append(("alt", (body_fail, history_expr(rng, depth + 1))))
+            elif k == "and":
+                items.append(("and", body))
+            elif k == "not-fail":
+                items.append(("not", body_fail))
+            elif k == "not":
+                items.append(("opt", ("seq", (("not", body), ("str", "!")))))
+            else:
+                it = ("seq", (body, ("str", "."))) if body[0] != "seq" else ("seq", body[1] + (("str", "."),))
+                if k == "star":
+                    items.append(("star", it))
+                elif k == "max":
+                    items.append(("max", it, rng.randint(1, 2)))
+                else:
+                    items.append(("minmax", it, 0, rng.randint(1, 3)))
+        else:
+            items.append(("pushlit", rng.choice("abcd")))
+    return items[0] if len(items) == 1 else ("seq", tuple(items))
+
+
+def history_case(rng):
+    """(rules, inputs) or None: r0 = { H ~ OBSERVE ~ EOI } with an input on which the reference succeeds, so
+    that a wrong stack at the observation point makes python-pest disagree."""
+    h = history_expr(rng)
+    observe = rng.choice([("id", "PEEK_ALL"), ("id", "PEEK_ALL"), ("id", "POP_ALL"), ("slice", None, None)])
+    rules = [("r0", rng.choice(["", "", "_", "@"]), ("seq", (h, observe, ("id", "EOI"))))]
+    if ganalysis.Analysis(rules).problems(BUILTIN_IDS):
+        return None
+    prefix = "." * rng.randint(0, 5)
+    ref = refpeg.Ref({}, prefix)
+    try:
+        res = ref.ev(h, 0, (), refpeg.N, False)
+    except (refpeg.Unspecified, refpeg.Budget):
+        return None
+    if res is refpeg.FAIL:
+        return None
+    pos, stack = res[0], res[1]
+    order = stack if observe[0] == "slice" else tuple(reversed(stack))
+    good = prefix[:pos] + "".join(order)
+    inputs = [good, good + ".", good[:-1] if good else ".", prefix]
+    if stack:
+        inputs.append(prefix[:pos] + "".join(reversed(order)))
+    return rules, list(dict.fromkeys(inputs)), ref.stats
+
+
+# ----------------------------------------------------------------------------- exhaustive nested histories
+
+_LET = "abcdefghijklm"
+_COMMIT = ("opt", "alt")
+_ROLLBACK = ("opt-fail", "alt-fail", "and", "not-fail")
+
+
+def _group(kind, inner):
+    body = inner[0] if len(inner) == 1 else ("seq", inner)
+    fail = ("seq", inner + (("str", "!"),))
+    if kind == "opt":
+        return ("opt", body)
+    if kind == "alt":
+        return ("alt", (body, ("str", "!")))
+    if kind == "opt-fail":
+        return ("opt", fail)
+    if kind == "alt-fail":
+        return ("alt", (fail, ("str", "")))
+    if kind == "and":
+        return ("and", body)
+    if kind == "not-fail":
+        return ("not", fail)
+    raise ValueError(kind)
+
+
+def enum_histories(budget, stack=(), nl=0, salt=0):
+    """Every nested history of push / pop / checkpoint...commit / checkpoint...rollback with at most
+    `budget` operations (a group costs 2), as (items, stack_after, next_letter, cost). Pops only on a
+    non-empty model stack; pushed values are fresh letters, so every entry is distinguishable."""
+    yield ((), stack, nl, 0)
+    if budget <= 0:
+        return
+    firsts = [((("pushlit", _LET[nl]),), stack + (_LET[nl],), nl + 1, 1)]
+    if stack:
+        firsts.append(((("id", "DROP"),), stack[:-1], nl, 1))
+    for it, st, n2, c in firsts:
+        for rest, st2, n3, c2 in enum_histories(budget - c, st, n2, salt + 1):
+            yield (it + rest, st2, n3, c + c2)
+    if budget >= 3:
+        for inner, sti, ni, ci in enum_histories(budget - 2, stack, nl, salt + 7):
+            if ci == 0:
+                continue
+            kc = _COMMIT[(salt + ci + len(stack)) % 2]  # opt / alt
+            kr = _ROLLBACK[(salt + ci + len(sti)) % len(_ROLLBACK)]
+            for rest, st2, n3, c2 in enum_histories(budget - 2 - ci, sti, ni, salt + 3):
+                yield ((_group(kc, inner),) + rest, st2, n3, 2 + ci + c2)
+            for rest, st2, n3, c2 in enum_histories(budget - 2 - ci, stack, ni, salt + 5):
+                yield ((_group(kr, inner),) + rest, st2, n3, 2 + ci + c2)
+
+
+def run_exhaustive_histories(ctx: Ctx, modes, idx, bound):
+    k = 0
+    for items, stack, _nl, cost in enum_histories(bound):
+        if cost == 0:
+            continue
+        k += 1
+        if k % 16 != idx:
+            continue
+        observe = (("id", "PEEK_ALL"), ("id", "POP_ALL"), ("slice", None, None))[k // 16 % 3]
+        order = stack if observe[0] == "slice" else tuple(reversed(stack))
+        rules = [("r0", "", ("seq", items + (observe, ("id", "EOI"))))]
+        good = "".join(order)
+        inputs = [good] if len(stack) < 2 else [good, good[::-1]]
+        ctx.count("exhaustive_histories")
+        refdiff.check_grammar(ctx, modes, rules, [("r0", i, 0) for i in inputs], MODES,
+                              lambda stats, want, call: bool(stats.get("stack_change_undone")), exhaustive=True)
+        if len(ctx.samples) < 6 and cost == bound and idx == 3:
+            ctx.sample({"exhaustive_history_grammar": gprint.grammar_text(rules), "inputs": inputs})
+    ctx.exhaustive.update({"complete": True, "max_history_ops": bound})
+
+
 # ----------------------------------------------------------------------------- plumbing
 
 
@@ -211,6 +361,26 @@ def run_shard(ctx: Ctx, spec):
                 ctx.sample({"grammar": gprint.grammar_text(rules), "inputs": inputs[:6]})
 
         t()
+
+        @hypothesis.seed(ctx.sub_seed("history-grammars"))
+        @settings(max_examples=size["hist"], deadline=None, database=None, phases=[Phase.generate],
+                  suppress_health_check=list(HealthCheck))
+        @hypothesis.given(st.randoms(use_true_random=False))
+        def th(rng):
+            case = history_case(rng)
+            if case is None:
+                ctx.count("history_grammars_discarded")
+                return
+            rules, inputs, stats = case
+            ctx.count("history_grammars")
+            if stats.get("stack_change_undone"):
+                ctx.count("history_grammars_with_undo")
+            refdiff.check_grammar(ctx, modes, rules, [("r0", i, 0) for i in inputs], MODES, nontrivial, excluded=excluded)
+            if len(ctx.samples) < 5 and stats.get("stack_change_undone", 0) >= 2:
+                ctx.sample({"grammar": gprint.grammar_text(rules), "inputs": inputs})
+
+        th()
+        run_exhaustive_histories(ctx, modes, spec["idx"], size["exh"])
         run_ops(ctx, modes, size["ops"])
     finally:
         modes.close()
